@@ -5,7 +5,7 @@ import ShpanVerif.Model.QueryRef
 Driver handler for C11 (evaluation matches the reference semantics; datasource/report twins agree).
 Case grammar and observation format: notes/C10-protocol.md.
   q  cases: model = executable model; spec = the observation equals the rendering of the REFERENCE interpreter
-            (`Ref.refR` / `Ref.refD`, Model/QueryRef.lean) — metadata and rows; a query the reference rejects must be
+            (`Ref.semR` / `Ref.semD`, Model/QueryRef.lean) — metadata and rows; a query the reference rejects must be
             rejected; where the reference says some row fails, the observation must be a row error (join-free trees).
             Trees with a reduction datasource have no reference semantics here (C14): only model = obs is compared.
   tw cases: the same datasource-API chain built three ways (A datasource API, B report API over FromDatasource,
@@ -89,7 +89,7 @@ def handle (c obs : String) : String × Bool × String :=
       | none => fmtRResult mask (execR O false f t q)
     if !inputsOkR q then (model, true, "inputs not schema-conforming: property does not apply")
     else
-      let ref := if Ref.hasReductionR q then none else fmtRef mask (Ref.refR O false f t q)
+      let ref := if Ref.hasReductionR q then none else fmtRef mask (Ref.semR O false f t q)
       let (ok, why) := refVerdict obs ref (hasJoinR q)
       (model, ok, why)
   | some (.ds mask f t q) =>
@@ -98,7 +98,7 @@ def handle (c obs : String) : String × Bool × String :=
       | none => fmtDResult mask (execD O false f t q)
     if !inputsOkD q then (model, true, "inputs not schema-conforming: property does not apply")
     else
-      let ref := if Ref.hasReductionD q then none else fmtRef mask (Ref.refD O false f t q)
+      let ref := if Ref.hasReductionD q then none else fmtRef mask (Ref.semD O false f t q)
       let (ok, why) := refVerdict obs ref (hasJoinD q)
       (model, ok, why)
   | some (.tw mask f t fm rows fs) =>
@@ -110,7 +110,7 @@ def handle (c obs : String) : String × Bool × String :=
     else match splitTw obs with
       | none => (model, false, "observation not in the A{ } B{ } C{ } format")
       | some (oa, ob, oc) =>
-        let ref := fmtRef mask (Ref.refD O false f t (.filtered (.static fm rows) fs))
+        let ref := fmtRef mask (Ref.semD O false f t (.filtered (.static fm rows) fs))
         let (okRef, whyRef) := refVerdict oa ref false
         if oa == ob && oa == oc && okRef then (model, true, "")
         else
